@@ -5,6 +5,7 @@ CONSTANTS
   DirChoices <- Dirs
   NeuChoices <- Neus
   MaxConds = 4
+  MaxRounds = 1
   Emit = TRUE
 INVARIANT Holds
 INVARIANT EmitOK
